@@ -24,9 +24,9 @@ def sh(cmd, **kw):
     return r.returncode, r.stdout.decode('utf8', 'replace')
 
 
-def do_import(pid, letter):
-    src = '/tmp/wt/%s/SEED/%s' % (pid, letter)
-    dst = os.path.join(VERIF, 'seeded', '%s-%s' % (pid, letter))
+def do_import(pid, letter, root='/tmp/wt', as_letter=None):
+    src = '%s/%s/SEED/%s' % (root, pid, letter)
+    dst = os.path.join(VERIF, 'seeded', '%s-%s' % (pid, as_letter or letter))
     os.makedirs(dst, exist_ok=True)
     shutil.copy(os.path.join(src, 'patch.diff'), os.path.join(dst, 'patch.diff'))
     if os.path.exists(os.path.join(src, 'notes.md')):
@@ -34,8 +34,9 @@ def do_import(pid, letter):
     demo = open(os.path.join(src, 'demo.py')).read()
     # make the demo independent of the worktree it was written in
     demo = re.sub(r"^ROOT\s*=.*$", "ROOT = os.environ.get('GLOM_ROOT', '/repo')", demo, count=1, flags=re.M)
-    demo = re.sub(r"startswith\(\s*'/tmp/wt/%s'?\s*(\+\s*os\.sep|/')?\s*\)" % pid, "startswith(ROOT)", demo)
-    demo = demo.replace("'/tmp/wt/%s/'" % pid, "ROOT").replace("'/tmp/wt/%s'" % pid, "ROOT")
+    demo = re.sub(r"startswith\(\s*'/tmp/wt2?/%s'?\s*(\+\s*os\.sep|/')?\s*\)" % pid, "startswith(ROOT)", demo)
+    for r_ in ('/tmp/wt2', '/tmp/wt'):
+        demo = demo.replace("'%s/%s/'" % (r_, pid), "ROOT").replace("'%s/%s'" % (r_, pid), "ROOT")
     if 'GLOM_ROOT' not in demo:
         demo = ("import os, sys\nROOT = os.environ.get('GLOM_ROOT', '/repo')\nsys.path.insert(0, ROOT)\n" + demo)
     open(os.path.join(dst, 'demo.py'), 'w').write(demo)
@@ -109,6 +110,8 @@ if __name__ == '__main__':
     a = sys.argv[1:]
     if a[0] == 'import':
         do_import(a[1], a[2])
+    elif a[0] == 'import2':       # round 2: /tmp/wt2/<ID>/SEED/<A|B> -> seeded/<ID>-<C|D>
+        do_import(a[1], a[2], root='/tmp/wt2', as_letter={'A': 'C', 'B': 'D'}[a[2]])
     elif a[0] == 'verify':
         tier = 'quick'
         checks = None
